@@ -187,6 +187,8 @@ def check_stream(chk, prog, sim, name):
                     if len(chk.samples) < 10:
                         chk.sample({"stream": name, "samples": k, "output": {c: A.show(x) for c, x in got.items()}})
         frontier = nxt
+        if not ok:
+            break      # already failed: later steps only repeat the report and can be very slow on a wrong formula
         if not frontier:
             chk.violation("C10.staging", key + ":stuck", "%s: no returning path after sample %d" % (name, k))
             ok = False
@@ -255,6 +257,8 @@ def check_interleaved(chk, prog, sim, name):
                                           % (name, [c + ":" + t for c, t in script], tag, g, hist), fn=up["pretty"], file=loc(up["span"]))
                             ok = False
             frontier = nxt
+            if not ok:
+                break      # already failed: later steps only repeat the report and can be very slow on a wrong formula
     if ok:
         chk.discharge(key)
 
@@ -289,6 +293,22 @@ def run(chk):
             for v in chk.violations[before:]:
                 v["key"] += "@K7"
                 v["what"] = "[release profile with dim_check_release] " + v["what"]
+        UNITS_ON[0] = units_enabled(prog)
+    # ... and with dimension checking compiled out (K4) the converters must still produce their values (an assertion written with
+    # the assume-not-ok family is invisible in K1 and panics on every input there)
+    import program as _p4
+    p4 = _p4.load_config("K4")
+    chk.configs.append("K4")
+    UNITS_ON[0] = units_enabled(p4)
+    s4 = S.Sim(p4)
+    try:
+        for name in ("AccelerationToState", "VelocityToState", "PositionToState"):
+            before = len(chk.violations)
+            check_stream(chk, p4, s4, name)
+            for v in chk.violations[before:]:
+                v["key"] += "@K4"
+                v["what"] = "[dimension checking compiled out] " + v["what"]
+    finally:
         UNITS_ON[0] = units_enabled(prog)
     chk.assume("real-arithmetic model: forward error versus an f64 reference is NOT decided",
                "all samples of one run carry the same (symbolic) unit", "reset / absent / error events are C05's obligations; this check covers runs of present samples")
